@@ -351,7 +351,8 @@ GROWTH_CAP = {"quick": 12.0, "thorough": 14.0}
 def padded(sc):
     xmx, ymx = sc["nx"] * sc["dx"], sc["ny"] * sc["dy"]
     h = sc["halo"] if sc["halo"] is not None else max(xmx, ymx)
-    px, py = int(h / sc["dx"]), int(h / sc["dy"])
+    # whole cells covered by the halo (floor, robust to float division)
+    px, py = int(h / sc["dx"] + 1e-9), int(h / sc["dy"] + 1e-9)
     return sc["nx"] + 2 * px, sc["ny"] + 2 * py, px, py
 
 
